@@ -152,7 +152,7 @@ func (st *c05State) check(cs *c05Case) {
 	vb, rect := c05VBs[cs.VB], c05Rects[cs.Rect]
 	m := ref.NewMap(vb, rect)
 	var z render.Renderer
-	st.ras.ResetLog()
+	st.ras.Fresh()
 	// Two ways to get there, alternating from case to case (a prelude can mask a defect that
 	// needs its absence, and the other way round):
 	variant := (cs.VB + cs.Rect + len(cs.Letters) + cs.Reps) % 2
